@@ -1072,6 +1072,33 @@ func ruleWaitRemoveReturn(c *Ctx, r *Reporter) {
 		}
 	}
 	r.check(okBuild, name+"|cases built from the set on this call", c.posStr(fn.Pos()), "the select cases are filled by ranging ws.chans on a path that dominates every reflect.Select", "the select cases are not rebuilt from ws.chans on every call before selecting: members added since (Add/Merge) are not waited on, or stale members are")
+	// (7) reflect.Select accepts at most 65536 cases and panics above: the number of cases (one
+	// per member plus the context) must be bounded, or the set waited on in chunks
+	{
+		bounded := false
+		for _, ia := range allInstrs(fn) {
+			if bo, ok := ia.In.(*ssa.BinOp); ok {
+				switch bo.Op {
+				case token.LSS, token.LEQ, token.GTR, token.GEQ:
+					for _, pair := range [][2]ssa.Value{{bo.X, bo.Y}, {bo.Y, bo.X}} {
+						if k, ok := constInt(pair[1]); ok && k >= 1024 && k <= 65536 {
+							if call, ok := pair[0].(*ssa.Call); ok {
+								if b, ok := call.Call.Value.(*ssa.Builtin); ok && b.Name() == "len" {
+									bounded = true
+								}
+							}
+						}
+					}
+				}
+			}
+			if call, ok := ia.In.(*ssa.Call); ok {
+				if f := staticCallee(call); f != nil && c.inModule(f) && strings.Contains(strings.ToLower(f.Name()), "select") {
+					bounded = true // a helper that splits the cases
+				}
+			}
+		}
+		r.check(bounded, name+"|number of select cases is bounded", c.posStr(fn.Pos()), "the case list is split or bounded before reflect.Select", "Wait hands one select case per member (plus the context) to reflect.Select, which panics with 'too many cases (max 65536)': a set with 65536 or more channels (Add and Merge accept any number) cannot be waited on")
+	}
 	// (6) every member of the set gets a select case: the slice is cut to 1+len(ws.chans), so an
 	// iteration of the fill loop that stores nothing leaves a stale or zero case behind
 	filled := false
@@ -1270,6 +1297,59 @@ func ruleDedupSiblings(c *Ctx, r *Reporter) {
 }
 
 func ruleReprEq(c *Ctx, r *Reporter) {
+	// the deep comparison is over the values in every representation: the key of a pair is
+	// identified by its bytes (compared separately), so comparing whole {Key, Value} pairs in one
+	// representation and values only in the other makes equality depend on the representation
+	if fn := c.Func("part", "Map", "SlowEqual"); fn != nil {
+		n, bad := 0, 0
+		var pos ssa.Instruction
+		for _, f := range withAnon(fn) {
+			for _, ia := range allInstrs(f) {
+				call, ok := ia.In.(*ssa.Call)
+				if !ok || c.calleeName(call) != "reflect.DeepEqual" {
+					continue
+				}
+				n++
+				for _, a := range call.Call.Args {
+					v := a
+					for i := 0; i < 3; i++ {
+						switch x := v.(type) {
+						case *ssa.MakeInterface:
+							v = x.X
+						case *ssa.ChangeType:
+							v = x.X
+						case *ssa.ChangeInterface:
+							v = x.X
+						}
+					}
+					isValue := false
+					switch x := v.(type) {
+					case *ssa.Field:
+						_, fname, _ := fieldOf(x)
+						isValue = fname == "Value"
+					case *ssa.UnOp:
+						if fa, ok := x.X.(*ssa.FieldAddr); ok {
+							_, fname, _ := fieldOf(fa)
+							isValue = fname == "Value"
+						}
+					}
+					if !isValue {
+						bad++
+						pos = call
+					}
+				}
+			}
+		}
+		key := "part.(Map).SlowEqual|values are compared the same way in every representation"
+		switch {
+		case n < 2:
+			r.undecidedP([]string{"C17"}, key, c.posStr(fn.Pos()), fmt.Sprintf("expected a DeepEqual in the singleton and in the tree branch, found %d", n))
+		case bad == 0:
+			r.okP([]string{"C17"}, key, c.posStr(fn.Pos()), "every DeepEqual compares the Value fields of two pairs")
+		default:
+			r.badP([]string{"C17"}, key, c.posStr(instrPos(pos)), "a DeepEqual compares whole {Key, Value} pairs while the other representation compares values only: maps with the same contents are equal or unequal depending on whether they are singletons or trees (nil vs empty []byte key, NaN key, YAML round trip)")
+		}
+	}
 	for _, spec := range [][2]string{{"Set", "Equal"}, {"Map", "EqualKeys"}, {"Map", "SlowEqual"}} {
 		fn := c.Func("part", spec[0], spec[1])
 		if fn == nil {
